@@ -66,7 +66,8 @@ let ghost cs0 = constraints@;"""
         "forall|j: int| 0 <= j < accumulators@.len() ==> (#[trigger] accumulators@[j]).idx() == wits(*old(self)).len() + j",
         "rc_partial(constraints@, num_bits as int, wits(*old(self)).len() as int, i as int)",
     ])
-    f.before("let mut num_gates =", "proof { assert(num_bits >> 3usize == num_bits / 8) by(bit_vector); }")
+    # a fact about the parameter only: placed before the first statement that can use it, whatever that statement looks like
+    f.before("let bits = self[witness]", "proof { assert(num_bits >> 3usize == num_bits / 8) by(bit_vector); }")
     f.cut("""let bit_iter = BitIterator8::new(bits.to_bytes());
         let mut bits: Vec<_> = bit_iter.collect();
         bits.reverse();""", name="cut_le_bits", params="bits: BlsScalar", ret="r: Vec<bool>", tail="bits",
